@@ -45,22 +45,27 @@ def tune_for(rng: random.Random) -> dict:
     return t
 
 
-def play_case(case_id: str, seed: int, force_variant=None, profile=None, max_ops=400):
+def play_case(case_id: str, seed: int, force_variant=None, profile=None, max_ops=400, monitors=()):
     """Generate and play one hand.  Returns (script_lines, expect_lines, meta)."""
     rng = random.Random(seed)
     kw, extra, meta = gen.gen_config(rng, seed % 1000003, force_variant, profile)
     tune = tune_for(rng)
+    extra['deck_ok'] = meta['deck_ok']
     if profile and 'tune' in profile:
         tune.update(profile['tune'])
     meta['style'] = tune['style']
-    sess = impl.Session(kw, extra)
+    mons = [m() for m in monitors]
+    sess = impl.Session(kw, extra, mons)
     err = sess.init()
     stats = Counter()
     if err is not None:
         meta['init_err'] = type(err).__name__
         stats['init_err:' + type(err).__name__] += 1
+        meta['violations'] = [v for m in mons for v in m.violations]
         return ['case ' + case_id] + sess.script, ['case ' + case_id] + sess.expect, meta, stats
     s = sess.state
+    valid_flags: list[int] = []
+    meta['valid_flags'] = valid_flags
     nop = 0
     dead = 0
     while nop < max_ops:
@@ -87,7 +92,8 @@ def play_case(case_id: str, seed: int, force_variant=None, profile=None, max_ops
         if rng.random() < tune['p_can']:
             sess.can(line)
         before = len(s.operations)
-        e = sess.op(line)
+        e = sess.op(line, valid=not bad)
+        valid_flags.append(0 if bad else 1)
         nop += 1
         name = line.split(' ')[0]
         if e is None:
@@ -117,6 +123,9 @@ def play_case(case_id: str, seed: int, force_variant=None, profile=None, max_ops
         stats['log:' + type(o).__name__] += 1
     if not s.status:
         stats['terminal'] += 1
+    for m in mons:
+        m.at_end(sess)
+    meta['violations'] = [v for m in mons for v in m.violations]
     return ['case ' + case_id] + sess.script, ['case ' + case_id] + sess.expect, meta, stats
 
 
@@ -173,14 +182,14 @@ def compare_case(exp: list[str], act: list[str]):
     return None
 
 
-def run_batch(seeds: list[int], tag: str, force_variant=None, profile=None):
+def run_batch(seeds: list[int], tag: str, force_variant=None, profile=None, monitors=()):
     """Play the cases, run the model once over all of them, compare.  Returns a result dict."""
     t0 = time.time()
     scripts, expects, metas, stats = {}, {}, {}, Counter()
     all_script: list[str] = []
     for sd in seeds:
         cid = f'{tag}-{sd}'
-        sc, ex, meta, st = play_case(cid, sd, force_variant, profile)
+        sc, ex, meta, st = play_case(cid, sd, force_variant, profile, monitors=monitors)
         scripts[cid], expects[cid], metas[cid] = sc, ex, meta
         stats.update(st)
         all_script += sc
